@@ -29,7 +29,7 @@ private def setMethods : List String :=
 /-- the API entries each workload calls directly (names exactly as the extractor prints them) -/
 def workloadEntries : List (String × List String) := [
   ("hashtable-iterate",
-    ["hash.HashFuncForInt", "symboltable.NewChainHashTable", "symboltable.NewLinearHashTable",
+    ["hash.HashFuncForInt", "hash.HashFuncForString", "symboltable.NewChainHashTable", "symboltable.NewLinearHashTable",
      "symboltable.NewQuadraticHashTable", "symboltable.NewDoubleHashTable"]
     ++ (["chainHashTable", "linearHashTable", "quadraticHashTable", "doubleHashTable"].flatMap fun t =>
           hashTableMethods.map fun m => "symboltable." ++ t ++ "." ++ m)),
@@ -63,23 +63,41 @@ def workloadEntries : List (String × List String) := [
     ["grammar.HashSymbol", "grammar.HashTerminal", "grammar.HashNonTerminal", "grammar.HashString",
      "grammar.HashProduction", "grammar.EqSymbol", "grammar.EqString", "grammar.EqProduction", "grammar.CmpSymbol",
      "grammar.CmpString", "grammar.CmpProduction", "grammar.CmpTerminal", "automata.HashState", "automata.HashSymbol",
-     "automata.EqState", "automata.CmpSymbol", "parser/lr.HashState", "parser/lr.EqState", "parser/lr.CmpState"]),
+     "automata.EqState", "automata.CmpSymbol", "parser/lr.HashState", "parser/lr.EqState", "parser/lr.CmpState",
+     "hash.HashFuncForString", "hash.HashFuncForStringSlice", "hash.HashFuncForInt", "hash.HashFuncForIntSlice",
+     "hash.HashFuncForUint8Slice", "hash.HashFuncForFloat64", "hash.HashFuncForBool", "hash.HashFuncForInt32",
+     "hash.HashFuncForUint64"]),
+  ("ordered-tables",
+    ["symboltable.NewBST", "symboltable.NewAVL", "symboltable.NewRedBlack"]
+    ++ (["bst", "avl", "redBlack"].flatMap fun t =>
+          ["Put", "Delete", "Min", "Max", "Floor", "Select", "Rank", "Height", "All", "DeleteMin", "DeleteMax", "RangeSize", "Size"].map
+            fun m => "symboltable." ++ t ++ "." ++ m)),
+  ("tries",
+    ["trie.NewBinary", "trie.NewPatricia"]
+    ++ (["binary", "patricia"].flatMap fun t =>
+          ["Put", "Delete", "Min", "Max", "Rank", "WithPrefix", "All", "Size"].map fun m => "trie." ++ t ++ "." ++ m)),
+  ("heaps",
+    ["heap.NewBinary", "heap.NewBinomial", "heap.NewFibonacci", "heap.NewIndexedBinary", "heap.NewIndexedBinomial",
+     "heap.NewIndexedFibonacci"]
+    ++ (["binary", "binomial", "fibonacci"].flatMap fun t =>
+          ["Insert", "Delete", "Peek", "Size", "ContainsKey"].map fun m => "heap." ++ t ++ "." ++ m)
+    ++ (["indexedBinary", "indexedBinomial", "indexedFibonacci"].flatMap fun t =>
+          ["Insert", "ChangeKey", "DeleteIndex", "Delete", "Size", "ContainsIndex"].map fun m => "heap." ++ t ++ "." ++ m)),
+  ("lexer-input",
+    ["lexer/input.New", "lexer/input.Input.Next", "lexer/input.Input.Lexeme", "lexer/input.Input.Retract"]),
   ("structures",
     ["sort.Quick", "sort.Quick3Way", "sort.Merge", "sort.Heap", "sort.Shell", "sort.Insertion", "sort.Select",
      "radixsort.LSDInt", "radixsort.MSDInt", "radixsort.Quick3WayString", "radixsort.MSDString",
-     "symboltable.NewBST", "symboltable.NewAVL", "symboltable.NewRedBlack", "symboltable.bst.Put", "symboltable.avl.Put",
-     "symboltable.redBlack.Put", "symboltable.bst.Delete", "symboltable.avl.Delete", "symboltable.redBlack.Delete",
-     "trie.NewBinary", "trie.NewPatricia", "trie.binary.Put", "trie.patricia.Put",
-     "heap.NewBinary", "heap.NewBinomial", "heap.NewFibonacci", "heap.binary.Insert", "heap.binomial.Insert",
-     "heap.fibonacci.Insert", "heap.binary.Delete", "heap.binomial.Delete", "heap.fibonacci.Delete",
-     "list.NewQueue", "list.NewStack", "list.arrayQueue.Enqueue", "list.arrayStack.Push",
+     "list.NewQueue", "list.NewStack", "list.NewSoftQueue", "list.arrayQueue.Enqueue", "list.arrayStack.Push",
+     "list.softQueue.Enqueue", "list.arrayQueue.Dequeue", "list.arrayStack.Pop", "list.softQueue.Dequeue",
      "unionfind.NewQuickFind", "unionfind.NewQuickUnion", "unionfind.NewWeightedQuickUnion"])
 ]
 
 /-- the workloads the `mixed` workload draws from (goroutine g runs entry (g+seed) mod n) -/
 def mixedWorkloads : List String :=
   ["hashtable-iterate", "lr-slr", "set-iterate", "automata-determinize", "first-follow", "lr-lalr",
-   "grammar-transform", "ll1-table", "lr-canonical", "structures", "hash-api"]
+   "grammar-transform", "ll1-table", "lr-canonical", "structures", "hash-api", "ordered-tables", "tries", "heaps",
+   "lexer-input"]
 
 def entriesOf (w : String) : Option (List String) :=
   if w = "mixed" then
